@@ -65,6 +65,10 @@ def h_cert(eng, case):
     else:
         pub = bytes((i * 7 + 1) & 0xFF for i in range(pk))
     mode = case['mode']
+    if case.get('reuse'):
+        # the issuing signer has signed another certificate before
+        sv.new_cert([Component.from_str('warm'), Component.from_str('KEY'), Component.from_str('0')],
+                    Component.from_str('x'), b'earlier key', signer, _dt.datetime(2020, 1, 1), _dt.datetime(2021, 1, 1))
     if case.get('dates'):
         d0, d1 = _dt.datetime(*case['dates'][0]), _dt.datetime(*case['dates'][1])
     else:
@@ -152,8 +156,8 @@ def h_cert(eng, case):
     eng.check(beq(cert.signature_info.validity_period.not_before, exp_nb) and
               beq(cert.signature_info.validity_period.not_after, exp_na), 'cert-parses', sig='validity-after-parse')
     try:
-        if kind == 'ecdsa':
-            okv = kv.verify_ecdsa(crypto.ECC.import_key(crypto.make_key('ecc', 'k')), sig)
+        if kind in env.ECDSA_CURVES:
+            okv = kv.verify_ecdsa(crypto.ECC.import_key(crypto.make_key('ecc', 'k', env.ECDSA_CURVES[kind])), sig)
         elif kind == 'rsa':
             okv = kv.verify_rsa(crypto.RSA.import_key(crypto.make_key('rsa', 'k')), sig)
         elif kind == 'ed25519':
@@ -185,6 +189,12 @@ def cases(tier, seed):
         for mode in ('new', 'derive_text', 'derive_comp', 'self', 'sign_req'):
             cs.append(('cert', dict(base, signer=kind, mode=mode, rmin=60 if kind == 'ecdsa' and mode != 'new' else 0),
                        {'weight': 20}))
+    for kind in ('ecdsa', 'rsa', 'ed25519', 'hmac'):
+        cs.append(('cert', dict(base, signer=kind, mode='new', reuse=True, rmin=66), {'weight': 10}))
+    # every EC key size as issuer (the signature type stays SignatureSha256WithEcdsa)
+    for kind, rmin in (('ecdsa224', 60), ('ecdsa384', 100), ('ecdsa521', 136)):
+        for mode in ('new', 'derive_text', 'self', 'sign_req'):
+            cs.append(('cert', dict(base, signer=kind, mode=mode, rmin=rmin), {'weight': 20}))
     for nc in (1, 3):
         cs.append(('cert', dict(base, name_comps=nc, rmin=68), {'weight': 5}))
     for pk in (0, 1, 3):
